@@ -1,6 +1,6 @@
 SPECIFICATION Spec
 CONSTANTS
-  MaxLen = 4
+  MaxLen = 3
   Bases = {0, 1, 2, 3, 4, 10, 18, 19}
   Sizes = {0, 1, 2, 3, 5}
   Vals = {1, 2}
